@@ -28,7 +28,8 @@ func C07(r *core.Run) {
 	headerDescriptionOwner(r)
 	entityNameAgreement(r)
 	convertedFilesInOrder(r) // the lint path links the converted files in the order they come
-	fieldAttributes(r) // incl. the name of the synthetic map entry message: a mismatch with the field name is a link error
+	exportsOfThisPackageOnly(r)
+	fieldAttributes(r)       // incl. the name of the synthetic map entry message: a mismatch with the field name is a link error
 	r.Floor("R-EXT/G3", 25, "one per SetExtension site in j5convert")
 }
 
